@@ -124,3 +124,58 @@ Proof.
       change (e_par (core bx)) with (b_par ccmd bx) in Hp. rewrite Hp in E0.
       eapply (unapply_keep _ _ _ _ W1 E0); rewrite C1; assumption.
 Qed.
+
+Lemma path_up_up : forall s n c upl,
+    path_up ccmd (blocks _ _ s) n c = Some upl -> forall k, (k < n)%nat -> In (up (cores s) k c) upl.
+Proof.
+  intros s n. induction n as [|n IH]; intros c upl H k Hk; [lia|]. cbn in H.
+  destruct (find ccmd (blocks pstate ccmd s) c) as [b|] eqn:Fc; [|discriminate].
+  destruct (path_up ccmd (blocks pstate ccmd s) n (b_par ccmd b)) as [upl'|] eqn:E; cbn in H; [|discriminate].
+  inversion H; subst. destruct k as [|k']; [left; reflexivity|]. right. cbn [up].
+  assert (Hp : parent (cores s) c = b_par ccmd b) by (unfold parent; rewrite (find_cfind _ _ _ Fc); reflexivity).
+  rewrite Hp. apply (IH _ _ E). lia.
+Qed.
+
+Lemma apply_keep : forall s a b s' ok,
+    wf s -> apply pstate ccmd cexec cunexec s a b = Ok (s', ok) ->
+    (ok = false -> forall j, is_act (cores s) j -> is_act (cores s') j) /\
+    (ok = true -> forall k, (k < Z.to_nat (hgt (cores s) b - hgt (cores s) a))%nat -> ~ is_act (cores s) (up (cores s) k b)).
+Proof.
+  intros s a b s' ok W H. unfold apply in H.
+  destruct (N.eqb a b) eqn:Eab.
+  { inversion H; subst. apply N.eqb_eq in Eab. subst. split; [discriminate|]. intros _ k Hk. rewrite Z.sub_diag in Hk. cbn in Hk. lia. }
+  destruct (find ccmd (blocks pstate ccmd s) a) as [bf|] eqn:Fa; [|discriminate].
+  destruct (find ccmd (blocks pstate ccmd s) b) as [bt|] eqn:Fb; [|discriminate].
+  destruct (is_failed ccmd bt).
+  { inversion H; subst. split; [auto|discriminate]. }
+  destruct (negb (Z.ltb (b_h ccmd bf) (b_h ccmd bt))) eqn:Hlt; [discriminate|].
+  destruct (path_up ccmd (blocks pstate ccmd s) _ b) as [upl|] eqn:Eup; [|discriminate].
+  destruct (rev upl) as [|x r] eqn:Erev; [discriminate|].
+  destruct (find ccmd (blocks pstate ccmd s) x) as [bx|] eqn:Fx; [|discriminate].
+  destruct (N.eqb (b_par ccmd bx) a) eqn:Epx; [|discriminate]. apply N.eqb_eq in Epx.
+  assert (Hne : upl <> []) by (intro; subst upl; discriminate).
+  assert (Hlast : last upl b = x) by (rewrite <- (rev_involutive upl), Erev; cbn [rev]; apply last_last).
+  destruct (path_up_linked s _ b upl a Eup (fun _ _ _ _ _ => I)) as [L _].
+  { exists bx. rewrite Hlast. split; assumption. }
+  { exact Hne. }
+  rewrite Erev in L.
+  destruct (ap_keep _ _ _ _ _ a W L (Z.le_refl _) H) as (Kf & Kt). split.
+  - intros Hok j Hj. apply (Kf Hok j Hj). intros k Hk. rewrite Z.sub_diag in Hk. cbn in Hk. lia.
+  - intros Hok k Hk. apply (Kt Hok). rewrite <- Erev. apply -> in_rev.
+    apply (path_up_up s _ b upl Eup).
+    assert (hgt (cores s) b = b_h ccmd bt) by (unfold hgt; rewrite (find_cfind _ _ _ Fb); reflexivity).
+    assert (hgt (cores s) a = b_h ccmd bf) by (unfold hgt; rewrite (find_cfind _ _ _ Fa); reflexivity).
+    rewrite H0, H1 in Hk. exact Hk.
+Qed.
+
+(** in a quiet state every block reached from the tip by parent pointers is applied *)
+Lemma chain_up_active : forall s, quiet s -> forall k, is_act (cores s) (up (cores s) k (tip _ _ s)).
+Proof.
+  intros s (W & Ta & _) k. induction k as [|k IH]; [exact Ta|]. rewrite up_succ_r.
+  destruct IH as (e & He & Ha). unfold parent. rewrite He.
+  destruct W as (ND & (hr & HR) & HP & _). pose proof (cfind_some _ _ _ He) as [Hid Hin].
+  destruct (N.eq_dec (e_id e) (root _ _ s)) as [Heq|Hne].
+  - pose proof (cfind_in _ _ ND Hin) as F. rewrite Heq, HR in F. inversion F; subst e. cbn.
+    exists (root pstate ccmd s, root pstate ccmd s, hr, true). split; [exact HR|reflexivity].
+  - destruct (HP e Hin Hne) as (pe & Hpe & _ & Hpa). exists pe. split; [exact Hpe|apply Hpa; exact Ha].
+Qed.
